@@ -97,7 +97,7 @@ def gen_code(rng, names, depth, me=None):
         elif r < 0.986:
             code.append(['yieldtimeout', -1, 0, 1])                 # negative delay
         else:
-            code.append(['praise', rng.choice([0, 2])])
+            code.append(['praise', rng.choice([0, 2, 0, 2, 5])])      # (5 = SystemExit: a failure that is not an Exception)
             break
     if rng.random() < 0.5:
         code.append(['pret', rng.randint(50, 59)])
